@@ -363,3 +363,28 @@ def r8(cx):
                              "compactor's swap then fails and its sources' rows exist twice" % (b.sp(a), ", ".join(via) or "load_leases"), [b.sp(a)])
             else:
                 cx.passed(ck, "groups-from-catalog-candidates", [b.sp(a)], ("also shaped by %s (does not read leases)" % other) if other else None)
+
+
+@rule("C03", "R9", "what is merged is what is swapped, and the swap adds nothing: merge_chunks hands its whole `paths` argument to the merger (no prefix, no slice - the callers lease, "
+      "swap and delete the whole group); the swap gives the merged chunk no statistics of its own making (C12.R6, evaluated for this property: an entry pruned on statistics "
+      "its rows do not satisfy is unqueryable)")
+def r9(cx):
+    mk, mb = cx.need_body(CMP + "merge_chunks")
+    ms = M.find_calls(mb, lambda c: c == "compactor::merge::ChunkMerger::merge")
+    if cx.floor("ChunkMerger::merge calls in merge_chunks", len(ms), 1, mk):
+        for m in ms:
+            o = M.operand_origins(mb, mb.term(m)["args"][1], at=(m, M.T))
+            calls = sorted({x[1][1] for x in o if x[0] == "call"})
+            whole = any(x[0] in ("arg", "upvar") and (str(x[1]) in ("paths", "2")) and x[2] == "" for x in o)
+            if whole and not calls:
+                cx.passed(mk, "merges-the-whole-group", [mb.sp(m)])
+            else:
+                cx.violation(mk, "merges-the-whole-group", "%s: the merger is given %s instead of the whole group: the callers still swap out, and schedule for deletion, every chunk of the group, so the "
+                             "rows of the chunks that were not merged disappear from the catalog" % (mb.sp(m), ("a part of `paths` selected by %s" % calls) if calls else "something other than `paths`"), [mb.sp(m)])
+    import importlib
+    c12 = importlib.import_module("rules.C12")
+    ib = len(cx.instances)
+    ob0, di0 = cx.obligations, cx.discharged
+    c12.r6(cx)
+    cx.obligations = ob0 + len(cx.instances[ib:])
+    cx.discharged = di0 + len([i for i in cx.instances[ib:] if i["verdict"] == "holds"])
